@@ -289,25 +289,36 @@ func (r *run) work(w *worker, ready *sync.WaitGroup) {
 	w.status.Store(stDone)
 }
 
-// mutexBlocked reports, for every worker that is marked running, whether the runtime shows it waiting for a mutex.
-func (r *run) allRunningBlocked(buf []byte) bool {
+// runningSet returns the workers currently marked running.
+func (r *run) runningSet() []*worker {
+	var ws []*worker
+	for _, w := range r.workers {
+		if w.status.Load() == stRunning {
+			ws = append(ws, w)
+		}
+	}
+	return ws
+}
+
+// allBlocked reports whether every worker of ws (read BEFORE the dump is taken, so that a worker that
+// finishes in between cannot be skipped) is shown by the runtime as waiting for a sync.Mutex.
+// Only the wait reason sync.Mutex.Lock counts: "semacquire" also covers transient runtime-internal
+// waits (GC start, stop-the-world) and must not be mistaken for a router mutex.
+func (r *run) allBlocked(ws []*worker, buf []byte) bool {
 	n := runtime.Stack(buf, true)
 	dump := buf[:n]
-	for _, w := range r.workers {
-		if w.status.Load() != stRunning {
-			continue
-		}
-		hdr := []byte(fmt.Sprintf("goroutine %d [", w.gid))
+	for _, w := range ws {
+		hdr := []byte(fmt.Sprintf("\ngoroutine %d [", w.gid))
 		i := bytes.Index(dump, hdr)
-		for i > 0 && dump[i-1] != '\n' { // must be at a line start
-			j := bytes.Index(dump[i+1:], hdr)
-			if j < 0 {
-				i = -1
-				break
-			}
-			i += 1 + j
-		}
 		if i < 0 {
+			if bytes.HasPrefix(dump, hdr[1:]) {
+				rest := dump[len(hdr)-1:]
+				e := bytes.IndexByte(rest, ']')
+				if e < 0 || !strings.HasPrefix(string(rest[:e]), "sync.Mutex.Lock") {
+					return false
+				}
+				continue
+			}
 			return false
 		}
 		rest := dump[i+len(hdr):]
@@ -315,8 +326,19 @@ func (r *run) allRunningBlocked(buf []byte) bool {
 		if e < 0 {
 			return false
 		}
-		st := string(rest[:e])
-		if !(strings.HasPrefix(st, "sync.Mutex.Lock") || strings.HasPrefix(st, "semacquire") || strings.HasPrefix(st, "sync.RWMutex")) {
+		if !strings.HasPrefix(string(rest[:e]), "sync.Mutex.Lock") {
+			return false
+		}
+	}
+	return true
+}
+
+func sameSet(a, b []*worker) bool {
+	if len(a) != len(b) {
+		return false
+	}
+	for i := range a {
+		if a[i] != b[i] {
 			return false
 		}
 	}
@@ -343,9 +365,14 @@ func (r *run) settle(buf []byte) bool {
 			runtime.Gosched()
 			continue
 		}
-		if r.allRunningBlocked(buf) {
-			// confirm: still the same after the dump (a goroutine may have been between two states)
-			return true
+		// two consecutive consistent observations: same running set, all of it waiting for a mutex
+		ws := r.runningSet()
+		if r.allBlocked(ws, buf) {
+			time.Sleep(30 * time.Microsecond)
+			ws2 := r.runningSet()
+			if sameSet(ws, ws2) && r.allBlocked(ws2, buf) && sameSet(ws2, r.runningSet()) {
+				return true
+			}
 		}
 		if time.Now().After(deadline) {
 			return false
@@ -558,7 +585,7 @@ func (Area) Gen(r *rand.Rand, tier string, emit func(string)) {
 	// {update to a new description, close, lookup x2, re-watch + update + lookup}
 	n := 6
 	if thorough {
-		n = 8
+		n = 7
 	}
 	for _, k := range []string{"P", "S"} {
 		sc := k + " U0.0.2.13;C0;L1,L3;W0.1,U1.0.3.1,L1;W0.0,U0.0.1.12"
